@@ -421,6 +421,40 @@ func num(a M, k string) int {
 	return 0
 }
 func boolean(a M, k string) bool { b, _ := a[k].(bool); return b }
+
+// splitIDs cuts ids into consecutive groups of the given sizes ([]any of numbers or []int); ids left over
+// form a last group. Used to put several control entries of one kind into ONE RPC.
+func splitIDs(ids []string, sizes any) [][]string {
+	var ns []int
+	switch l := sizes.(type) {
+	case []any:
+		for _, x := range l {
+			switch v := x.(type) {
+			case float64:
+				ns = append(ns, int(v))
+			case int:
+				ns = append(ns, v)
+			}
+		}
+	case []int:
+		ns = l
+	}
+	var out [][]string
+	for _, n := range ns {
+		if n > len(ids) {
+			n = len(ids)
+		}
+		if n < 0 {
+			n = 0
+		}
+		out = append(out, ids[:n])
+		ids = ids[n:]
+	}
+	if len(ids) > 0 {
+		out = append(out, ids)
+	}
+	return out
+}
 func strs(a M, k string) []string {
 	var out []string
 	if l, ok := a[k].([]any); ok {
@@ -504,11 +538,42 @@ func (w *World) Do(a M) bool {
 		_, has := a["bo"]
 		f.Send(hnet.PruneRPC(t, uint64(num(a, "bo")), has, px))
 	case "ihave":
-		f.Send(hnet.IHaveRPC(t, w.RealIDs(strs(a, "ids"))...))
+		// optional "split":[n1,n2,..] = several IHAVE entries in ONE RPC (ids cut in that order, rest in a last
+		// entry); optional "ts":[..] = topic of each entry (default t)
+		if _, ok := a["split"]; ok {
+			ts := strs(a, "ts")
+			c := &pb.ControlMessage{}
+			for i, part := range splitIDs(w.RealIDs(strs(a, "ids")), a["split"]) {
+				tp := t
+				if i < len(ts) {
+					tp = ts[i]
+				}
+				c.Ihave = append(c.Ihave, &pb.ControlIHave{TopicID: &tp, MessageIDs: part})
+			}
+			f.Send(&pb.RPC{Control: c})
+		} else {
+			f.Send(hnet.IHaveRPC(t, w.RealIDs(strs(a, "ids"))...))
+		}
 	case "iwant":
-		f.Send(hnet.IWantRPC(w.RealIDs(strs(a, "ids"))...))
+		if _, ok := a["split"]; ok { // several IWANT entries in one RPC
+			c := &pb.ControlMessage{}
+			for _, part := range splitIDs(w.RealIDs(strs(a, "ids")), a["split"]) {
+				c.Iwant = append(c.Iwant, &pb.ControlIWant{MessageIDs: part})
+			}
+			f.Send(&pb.RPC{Control: c})
+		} else {
+			f.Send(hnet.IWantRPC(w.RealIDs(strs(a, "ids"))...))
+		}
 	case "idontwant":
-		f.Send(hnet.IDontWantRPC(w.RealIDs(strs(a, "ids"))...))
+		if _, ok := a["split"]; ok { // several IDONTWANT entries in one RPC
+			c := &pb.ControlMessage{}
+			for _, part := range splitIDs(w.RealIDs(strs(a, "ids")), a["split"]) {
+				c.Idontwant = append(c.Idontwant, &pb.ControlIDontWant{MessageIDs: part})
+			}
+			f.Send(&pb.RPC{Control: c})
+		} else {
+			f.Send(hnet.IDontWantRPC(w.RealIDs(strs(a, "ids"))...))
+		}
 	case "msg":
 		// a message sent by fake peer p; authored by "author" (default p); "m" names it
 		name := str(a, "m")
